@@ -14,7 +14,9 @@ from . import core
 EXTRAS = [[], ["--check"], ["-l"], ["--files-with-diff"], ["--emit", "json"], ["--emit=stdout"],
           ["--help"], ["--help=config"], ["--print-config", "default"], ["-V"],
           ["--config", "max_width=90"], ["--check", "--config", "max_width=90"],
-          ["--config", "max_width=90", "-l"], ["--check", "--check"]]
+          ["--config", "max_width=90", "-l"], ["--check", "--check"],
+          # a word that equals the name of the cargo subcommand
+          ["--config-path", "fmt"], ["fmt"]]
 PREFIXES = ("--emit", "--help=", "--print-config=")
 
 
